@@ -18,7 +18,8 @@ EXPLANATION = (
     "checked at every write, and parameter/result ranges propagated over the call graph to an inductive fixpoint; the unproved "
     "rest must be a pure local counter or a justified entry.  Every std/dependency function known to panic must have been "
     "modelled at each call.  Loops: finite std iterator, synthesised ranking, or one of five named exemptions (daemon loop, "
-    "socket/channel drains).  API strings pass their validator before they are queued.")
+    "socket/channel drains).  API strings pass their validator before they are queued."
+    " (e) The name stored in a queued Command::ResolveHostname / Browse / Resolve is the name as given, never a to_lowercase() copy (Unicode lower-casing can lengthen a label beyond 63 bytes).")
 UNDECIDED = ["behaviour after the input (the daemon goes on serving): only absence of panics and hangs is decided",
              "allocation failure / stack overflow",
              "panics inside std or dependency functions beyond their documented conditions"]
@@ -591,6 +592,8 @@ def run(ctx, P):
     R = P      # (P.raw is the program as extracted; the numeric engine also runs on the normalised one)
     R.repo = P.repo
     A, sc = clause_a(ctx, R)
+    from . import r4
+    r4.rerun_names_are_verbatim(ctx, P, "C15e")
     side_conditions(ctx, P)
     clause_b(ctx, P)
     clause_d(ctx, R, A, sc)
